@@ -1260,3 +1260,207 @@ Print Assumptions C01_vol_create_dir_decodes_partial.
 Print Assumptions C01_vol_create_dir_frame_partial.
 Print Assumptions C01_vol_create_then_remove_dir_partial.
 Print Assumptions C01_vol_remove_dir_emptied_partial.
+(* ================================================================ THE FAT32 ROOT DIRECTORY on whole images
+   (Model/Vol32Root.v, Proofs/Vol32RootProofs.v, Vol32RootFormat.v, Vol32RootExamples.v).  On FAT32 fs.root_dir() is a
+   chain-backed directory starting at BPB_RootClus, without an entry of its own and without "." / "..": the functions of
+   Model/VolChainDir.v applied to the chain the decoder reads ([root32_chain]), create_sfn_entry with fat32 = true.
+   [root32_ok im l es ls]: a sane FAT32 geometry ([fat32_geom]); the root chain [l], cycle-free, below 2^32 bytes; its slots
+   scan to [es] / labels [ls] without issue.  [avoids l n]: node [n] refers to no cluster of [l] (no cross-link with the root). *)
+From FatVerif Require Import Model.VolChainDir Model.Vol32Root Proofs.VolDirProofs Proofs.VolChainDirProofs
+  Proofs.Vol32RootProofs Proofs.Vol32RootFormat Proofs.Vol32RootExamples.
+From FatVerif Require Import Model.Format Spec.FormatSpec Model.FormatImage Spec.FormatImageSpec.
+(* the slots of a chain <-> the bytes of its clusters, for ANY geometry with positive sector / cluster sizes whose cluster
+   holds whole slots ([slot_geom]: FAT12/16 [chain_geom] and FAT32 [fat32_geom] are instances) - the generalisation of
+   C01_volchain_put_changes that the FAT32 root uses *)
+Theorem C01_vol32_put_changes : forall g im l ss o,
+  slot_geom g -> chain_ok g l -> shape (cluster_slots g * length l) ss ->
+  img_get (put_chain_slots g im l ss) o <> img_get im o ->
+  exists i s j, (i < length l)%nat /\ (s < cluster_slots g)%nat /\ (j < 32)%nat /\
+    o = Abs.g_cluster_off g (nth i l 0) + N.of_nat (32 * s + j) /\
+    nth (cluster_slots g * i + s) ss [] <> nth (cluster_slots g * i + s) (chain_dir_slots g im l) [].
+Proof. exact put_chain_slots_changes_sg. Qed.
+
+Theorem C01_vol32_geom_is_slot_geom : forall g,
+  fat32_geom g -> slot_geom g.
+Proof. exact fat32_slot_geom. Qed.
+
+Theorem C01_volchain_geom_is_slot_geom : forall g,
+  chain_geom g -> slot_geom g.
+Proof. exact chain_slot_geom. Qed.
+
+(* the frame of a rewrite of the root chain's slots on a FAT32 volume: as C01_volchain_frame (active FAT copy, free count,
+   lost clusters, geometry untouched; a changed byte lies in a changed slot of a cluster of the chain) *)
+Theorem C01_vol32_frame : forall im l ss,
+  fat32_geom (parse_geom im) -> chain_ok (parse_geom im) l ->
+  shape (cluster_slots (parse_geom im) * length l) ss -> chain_frame im (put_chain_slots (parse_geom im) im l ss) l.
+Proof. exact put_chain_confined32. Qed.
+
+(* CREATE in the FAT32 root, decoded by Abs.abs of the WHOLE image: exactly one node inserted, every other node (chain, content,
+   sub-tree) unchanged and in order, no decode issue, labels / root chain / geometry as before, only the root chain's
+   clusters touched, FAT and free count untouched; the premises hold again (the theorems chain) *)
+Theorem C01_vol32_root_create_decodes : forall upper oem im l es ls name now range im',
+  root32_ok im l es ls -> Forall (avoids l) (v_root (abs im)) -> TimeProofs.datetime_valid now = true ->
+  vol32_root_create upper oem im name now = Some (Ok (Some range), im') ->
+  exists n1 n2 ne st,
+    v_root (abs im) = n1 ++ n2 /\ v_root (abs im') = n1 ++ NFile ne None [] :: n2 /\
+    e_lfn ne = (if is_dot_name name then [] else utf16_encode name) /\ e_lfn_ok ne = true /\
+    e_size ne = 0 /\ e_cluster ne = 0 /\ e_attr ne = 0 /\ e_ntres ne = 0 /\
+    stamp_create now = Ok st /\
+    e_ctime_ms ne = create_time_0 st /\ e_ctime ne = create_time_1 st /\ e_cdate ne = create_date st /\
+    e_adate ne = access_date st /\ e_mtime ne = modify_time st /\ e_mdate ne = modify_date st /\
+    e_first_slot ne = fst range /\ e_sfn_slot ne + 1 = snd range /\
+    sfn_legal_b (e_sfn ne) = true /\ ~ In (e_sfn ne) (map e_sfn (map node_entry (v_root (abs im)))) /\
+    v_root_issues (abs im') = [] /\ v_labels (abs im') = v_labels (abs im) /\
+    v_root_chain (abs im') = Some l /\ v_root_chain (abs im) = Some l /\ v_geom (abs im') = v_geom (abs im) /\
+    chain_frame im im' l /\
+    exists es', root32_ok im' l es' ls.
+Proof. exact vol32_root_create_decodes. Qed.
+
+(* every other outcome the model covers leaves every byte *)
+Theorem C01_vol32_root_create_failed_unchanged : forall upper oem im l es ls name now r im',
+  root32_ok im l es ls -> vol32_root_create upper oem im name now = Some (r, im') -> (forall range, r <> Ok (Some range)) ->
+  forall o, img_get im' o = img_get im o.
+Proof. exact vol32_root_create_failed_unchanged. Qed.
+
+(* REMOVE of a file without clusters (both first-cluster words zero): exactly one node removed *)
+Theorem C01_vol32_root_remove_decodes : forall upper oem im l es ls name im',
+  root32_ok im l es ls -> Forall (avoids l) (v_root (abs im)) ->
+  Forall attrs_sane (chain_dir_slots (parse_geom im) im l) ->
+  vol32_root_remove upper oem im name = Some (Ok tt, im') ->
+  exists ev e n1 n2,
+    chain_lookup upper oem im l name = Ok ev /\ matches upper oem name ev = true /\
+    Lfn.ev_raw_name ev = e_sfn e /\ e_is_dir e = false /\ e_cluster e = 0 /\ e_size e = Lfn.ev_size ev /\
+    v_root (abs im) = n1 ++ node_of (parse_geom im) im 23 e :: n2 /\ v_root (abs im') = n1 ++ n2 /\
+    (e_is_dot e = false -> node_of (parse_geom im) im 23 e = NFile e None []) /\
+    v_root_issues (abs im') = [] /\ v_labels (abs im') = v_labels (abs im) /\
+    v_root_chain (abs im') = Some l /\ v_geom (abs im') = v_geom (abs im) /\
+    chain_frame im im' l /\
+    exists es', root32_ok im' l es' ls.
+Proof. exact vol32_root_remove_decodes. Qed.
+
+Theorem C01_vol32_root_remove_failed_unchanged : forall upper oem im l es ls name r im',
+  root32_ok im l es ls -> vol32_root_remove upper oem im name = Some (r, im') -> r <> Ok tt ->
+  forall o, img_get im' o = img_get im o.
+Proof. exact vol32_root_remove_failed_unchanged. Qed.
+
+(* RENAME of a file inside the root: nothing (stored spelling), or exactly the source node replaced by one node with the same
+   chain and content (first cluster carried in BOTH words), the new long name, a fresh alias or the source's own *)
+Theorem C01_vol32_root_rename_decodes : forall upper oem im l es ls src dst im',
+  root32_ok im l es ls -> Forall (avoids l) (v_root (abs im)) -> Forall (fun e => e_is_dot e = false) es ->
+  Forall attrs_sane (chain_dir_slots (parse_geom im) im l) -> Forall DirSlotsProofs.bytes_ok (chain_dir_slots (parse_geom im) im l) ->
+  vol32_root_rename upper oem im src dst = Some (Ok tt, im') ->
+  exists ev e,
+    chain_lookup upper oem im l src = Ok ev /\ matches upper oem src ev = true /\ Lfn.ev_is_dir ev = false /\ In e es /\
+    Lfn.ev_raw_name ev = e_sfn e /\
+    ((exists dv, check_for_existence upper oem (chain_dir_slots (parse_geom im) im l) dst None = Ok (Exists dv) /\
+                 Lfn.ev_end dv = Lfn.ev_end ev /\ has_exact_name ev dst = true /\ forall o, img_get im' o = img_get im o) \/
+     (exists nx ny nc nd ne,
+        v_root (abs im) = nx ++ NFile e (file_chain (parse_geom im) im e) (file_content (parse_geom im) im e) :: ny /\
+        nx ++ ny = nc ++ nd /\
+        v_root (abs im') = nc ++ NFile ne (file_chain (parse_geom im) im e) (file_content (parse_geom im) im e) :: nd /\
+        e_lfn ne = (if is_dot_name dst then [] else utf16_encode dst) /\ e_lfn_ok ne = true /\
+        e_attr ne = e_attr e mod 64 /\ e_size ne = e_size e /\ e_cluster ne = e_cluster e /\
+        ((exists a, check_for_existence upper oem (chain_dir_slots (parse_geom im) im l) dst None = Ok (Fresh a) /\
+                    e_sfn ne = a /\ sfn_legal_b a = true /\ ~ In a (map e_sfn es)) \/
+         (exists dv, check_for_existence upper oem (chain_dir_slots (parse_geom im) im l) dst None = Ok (Exists dv) /\
+                     Lfn.ev_end dv = Lfn.ev_end ev /\ has_exact_name ev dst = false /\ e_sfn ne = e_sfn e)) /\
+        v_root_issues (abs im') = [] /\ v_labels (abs im') = v_labels (abs im) /\
+        v_root_chain (abs im') = Some l /\ v_geom (abs im') = v_geom (abs im) /\
+        chain_frame im im' l /\
+        exists es', root32_ok im' l es' ls)).
+Proof. exact vol32_root_rename_decodes. Qed.
+
+Theorem C01_vol32_root_rename_failed_unchanged : forall upper oem im l es ls src dst r im',
+  root32_ok im l es ls -> vol32_root_rename upper oem im src dst = Some (r, im') -> r <> Ok tt ->
+  forall o, img_get im' o = img_get im o.
+Proof. exact vol32_root_rename_failed_unchanged. Qed.
+
+(* from ANY device content: every FAT32 volume format_volume makes satisfies the premises, with root chain [2] *)
+Theorem C01_vol32_formatted_root_ok : forall o ts im0 bs im,
+  builder_range o -> ts < 4294967296 -> FatProofs.bytes_ok im0 ->
+  format_boot_sector_validated o ts = Ok (bs, Format.Fat32) -> format_image o ts im0 = Ok im ->
+  root32_ok im [2] [] (expected_labels o) /\ v_root (abs im) = [] /\ parse_geom im = geom_of (fbs_bpb bs).
+Proof. exact formatted_root32_ok. Qed.
+
+Theorem C01_vol32_root_create_many_decodes : forall upper oem,
+  forall reqs im im' l es ls,
+  root32_ok im l es ls -> Forall (avoids l) (v_root (abs im)) ->
+  Forall (fun q => TimeProofs.datetime_valid (snd q) = true) reqs ->
+  vol32_root_create_many upper oem im reqs = Some im' ->
+  (exists es', root32_ok im' l es' ls) /\ Forall (avoids l) (v_root (abs im')) /\
+  parse_geom im' = parse_geom im /\ v_root_issues (abs im') = [] /\ v_labels (abs im') = v_labels (abs im) /\
+  v_root_chain (abs im') = Some l /\
+  Abs.count_free (parse_geom im) im' = Abs.count_free (parse_geom im) im /\
+  (forall c, Abs.in_range (parse_geom im) c = true -> Abs.fat_val (parse_geom im) im' c = Abs.fat_val (parse_geom im) im c) /\
+  (forall o, outside_chain (parse_geom im) l o -> img_get im' o = img_get im o) /\
+  exists news,
+    Permutation (v_root (abs im')) (v_root (abs im) ++ news) /\
+    map (fun n => e_lfn (node_entry n)) news = map (fun q => stored_lfn (fst q)) reqs /\
+    Forall empty_file_node news /\
+    (NoDup (map e_sfn (map node_entry (v_root (abs im)))) -> NoDup (map e_sfn (map node_entry (v_root (abs im'))))).
+Proof. exact vol32_root_create_many_decodes. Qed.
+
+(* THE PAYOFF (the FAT32 analogue of C01_vol_format_create_many_decodes): format_volume of a FAT32 request on ANY device content,
+   then creates in the root: exactly those names, as plain empty files, no issue, FAT and free count of the formatted volume *)
+Theorem C01_vol32_format_create_many_decodes : forall upper oem o ts im0 bs im reqs im',
+  builder_range o -> ts < 4294967296 -> FatProofs.bytes_ok im0 ->
+  format_boot_sector_validated o ts = Ok (bs, Format.Fat32) ->
+  format_image o ts im0 = Ok im ->
+  Forall (fun q => TimeProofs.datetime_valid (snd q) = true) reqs ->
+  vol32_root_create_many upper oem im reqs = Some im' ->
+  let g := geom_of (fbs_bpb bs) in
+  exists nodes,
+    Permutation (v_root (abs im')) nodes /\
+    map (fun n => e_lfn (node_entry n)) nodes = map (fun q => stored_lfn (fst q)) reqs /\
+    Forall empty_file_node nodes /\
+    NoDup (map e_sfn (map node_entry (v_root (abs im')))) /\
+    length (v_root (abs im')) = length reqs /\
+    v_root_issues (abs im') = [] /\ v_labels (abs im') = expected_labels o /\ v_root_chain (abs im') = Some [2] /\
+    parse_geom im' = g /\ Abs.count_free g im' = Abs.count_free g im /\
+    (forall c, Abs.in_range g c = true -> Abs.fat_val g im' c = Abs.fat_val g im c) /\
+    (forall x, (x < Abs.g_cluster_off g 2 \/ Abs.g_cluster_off g 2 + Abs.g_cluster_size g <= x) -> img_get im' x = img_get im x).
+Proof. exact format32_create_many_decodes. Qed.
+
+(* the premises are satisfiable and the calls do what the theorems say on a formatted 65579-cluster volume *)
+Example C01_vol32_example :
+  root32_ok ex32r_im [2] [] [] /\ v_root (abs ex32r_im) = [] /\
+  opt_res (vol32_root_create upper_ascii oem_decode_lossy ex32r_im ex32_name1 ex_vol_now) = Some (Ok (Some (0, 3))) /\
+  opt_res (vol32_root_create upper_ascii oem_decode_lossy ex32r_im2 ex32_name2 ex_vol_now) = Some (Ok None) /\
+  opt_res (vol32_root_rename upper_ascii oem_decode_lossy ex32r_im2 ex32_name1 ex32_name3) = Some (Ok tt) /\
+  opt_res (vol32_root_remove upper_ascii oem_decode_lossy ex32r_im3 ex32_name2) = Some (Ok tt) /\
+  opt_res (vol32_root_remove upper_ascii oem_decode_lossy ex32r_im4 ex32_name2) = Some (Err ENotFound) /\
+  root_view ex32r_im3 = [(utf16_encode ex32_name2, 0, 0); (utf16_encode ex32_name3, 0, 0)] /\
+  root_view ex32r_im4 = [(utf16_encode ex32_name3, 0, 0)] /\
+  vol32_root_create upper_ascii oem_decode_lossy ex32r_full (ex32_name_k 5) ex_vol_now = None.
+Proof.
+  split; [exact ex32r_ok|]. split; [exact ex32r_root_empty|]. split; [exact ex32r_create1|]. split; [exact ex32r_create2_again|].
+  split; [exact ex32r_rename|]. split; [exact ex32r_remove|]. split; [exact ex32r_remove_missing|].
+  split; [exact (proj1 ex32r_view3)|]. split; [exact (proj1 ex32r_view4)|]. exact ex32r_full_declines.
+Qed.
+
+Print Assumptions C01_vol32_put_changes.
+Print Assumptions C01_vol32_geom_is_slot_geom.
+Print Assumptions C01_volchain_geom_is_slot_geom.
+Print Assumptions C01_vol32_frame.
+Print Assumptions C01_vol32_root_create_decodes.
+Print Assumptions C01_vol32_root_create_failed_unchanged.
+Print Assumptions C01_vol32_root_remove_decodes.
+Print Assumptions C01_vol32_root_remove_failed_unchanged.
+Print Assumptions C01_vol32_root_rename_decodes.
+Print Assumptions C01_vol32_root_rename_failed_unchanged.
+Print Assumptions C01_vol32_formatted_root_ok.
+Print Assumptions C01_vol32_root_create_many_decodes.
+Print Assumptions C01_vol32_format_create_many_decodes.
+
+(* GROWTH of the FAT32 root (Model/Vol32Root.vol32_root_create_grow = Model/VolChainGrow.vol_create_file_grow on the root chain).
+   PARTIAL: the theorems C01_volchain_grow_* are proved for FAT12/16 geometries; for the FAT32 root the function is validated by this
+   evaluation and by the correspondence stream (tools/props/cvol_corr.py run_root32_stream, growing creates).  The full one-cluster
+   root of the example (15 of 16 slots used) takes a 3-slot entry: cluster 3 is allocated from the hint, zeroed and linked
+   (FAT entry 2 = 3, entry 3 = end of chain), the latch goes to (65577, 4, dirty), the decoder follows the root chain [2; 3],
+   finds 6 nodes and no well-formedness issue. *)
+From FatVerif Require Import Model.Table Model.VolChainGrow Proofs.Vol32RootGrowExamples.
+Example C01_vol32_root_grow_example :
+  grow_view (vol32_root_create_grow upper_ascii oem_decode_lossy ex32r_full ex32_fi (ex32_name_k 5) ex_vol_now) =
+  Some (Ok (Some (15, 18)), {| fi_free := Some 65577; fi_next := Some 4; fi_dirty := true |}, [2; 3], Some [2; 3], 6%nat, [],
+        65577, [3; 0; 0; 0; 255; 255; 255; 15]).
+Proof. exact ex32r_root_grows. Qed.
